@@ -17,6 +17,7 @@ PROP = {'rule': 'rapid-generated cases. takeCPUs: (topology sockets1-2 x numa1-2
             'tests': [{'run': 'TestVerifC06TakeCPUs', 'quick': 20000, 'thorough': 150000},
                       {'run': 'TestVerifC06NUMASplit', 'quick': 20000, 'thorough': 200000},
                       {'run': 'TestVerifC06ManagerHistory', 'quick': 3000, 'thorough': 25000, 'steps': 25},
+                      {'run': 'TestVerifC06ManagerHistoryExt', 'quick': 3000, 'thorough': 25000, 'steps': 25},
                       {'run': 'FuzzVerifC06NUMASplit', 'fuzz': True, 'rapid': False, 'thorough_only': True, 'fuzztime': '40s'},
                       {'run': 'FuzzVerifC06TakeCPUs', 'fuzz': True, 'rapid': False, 'thorough_only': True, 'fuzztime': '40s'}]}],
  'manifest': {'technique': 'property-based testing (rapid): generated topologies/free sets/hints with validity + completeness oracle, and '
